@@ -29,7 +29,7 @@ fn describe(p: &P) -> String {
 	format!("{} funding, {} channel, {} earlier payments, monitor trigger: {}, persister {}, commitment_signed after update_{}_htlc",
 		["ordinary", "manual-broadcast (0-conf, funding seen on chain)", "manual-broadcast (0-conf, funding NOT yet seen on chain)"][p.funding as usize],
 		if p.anchors { "anchors" } else { "legacy" }, p.prior,
-		["none (control)", "outbound HTLC timed out (blocks connected to the ChainMonitor only)", "ChannelMonitor::broadcast_latest_holder_commitment_txn"][p.trigger as usize],
+		["none (control)", "outbound HTLC timed out (blocks connected to the ChainMonitor only)", "ChannelMonitor::broadcast_latest_holder_commitment_txn", "the PEER's commitment transaction confirmed (block given to the ChainMonitor only): funding_spend_seen"][p.trigger as usize],
 		if p.persist_completed { "Completed" } else { "InProgress" }, if p.fail { "fail" } else { "fulfill" })
 }
 
@@ -77,6 +77,14 @@ fn probe(p: P, stage: &Cell<u8>) -> Option<Out> {
 			}
 		},
 		2 => { let m = nodes[0].chain_monitor.chain_monitor.get_monitor(cid).unwrap(); m.broadcast_latest_holder_commitment_txn(&nodes[0].tx_broadcaster, &nodes[0].fee_estimator, &nodes[0].logger); },
+		3 => {
+			let tx = { let m = nodes[1].chain_monitor.chain_monitor.get_monitor(cid).unwrap(); m.unsafe_get_latest_holder_commitment_txn(&nodes[1].logger).remove(0) };
+			let (block_hash, height) = nodes[0].best_block_info();
+			let block = create_dummy_block(block_hash, height + 1, vec![tx.clone()]);
+			nodes[0].chain_monitor.chain_monitor.transactions_confirmed(&block.header, &[(0, &tx)], height + 1);
+			nodes[0].chain_monitor.chain_monitor.best_block_updated(&block.header, height + 1);
+			nodes[0].blocks.lock().unwrap().push((block, height + 1));
+		},
 		_ => {},
 	}
 	let f1 = flags();
@@ -84,8 +92,8 @@ fn probe(p: P, stage: &Cell<u8>) -> Option<Out> {
 	if p.trigger != 0 {
 		// never triggered (holder_tx_signed not set within 250 blocks): the scenario goes on as a control, and the flag-independent
 		// oracle below still watches for a monitor-initiated close that preceded the commitment_signed
-		if !f1[2] { out.cases.push((String::new(), String::new(), "not-triggered".into())); }
-		if !p.anchors && f1[2] {
+		if !(f1[0] || f1[1] || f1[2]) { out.cases.push((String::new(), String::new(), "not-triggered".into())); }
+		if !p.anchors && f1[2] && p.trigger != 3 {
 			let kind = if p.trigger == 1 { "timeout" } else { "queue0" };
 			out.cases.push((format!("trig {} {} {}", kind, b(f0[3]), b(f0[4])), format!("signed={} queued={} nfua={}", b(f1[2]), b(!bcast.is_empty()), b(f1[5])),
 				format!("trig:{}:manual={}:seen={}:queued={}", kind, f0[3], f0[4], !bcast.is_empty())));
@@ -108,8 +116,9 @@ fn probe(p: P, stage: &Cell<u8>) -> Option<Out> {
 	let mon_holder = holder_no();
 	let mut raa = [false, false];
 	let mut closed_by_monitor = false;
+	let first_secret: Cell<Option<[u8; 32]>> = Cell::new(None);
 	let drain = |slot: usize, raa: &mut [bool; 2]| {
-		for ev in nodes[0].node.get_and_clear_pending_msg_events() { if let MessageSendEvent::SendRevokeAndACK { .. } = ev { raa[slot] = true; } }
+		for ev in nodes[0].node.get_and_clear_pending_msg_events() { if let MessageSendEvent::SendRevokeAndACK { msg, .. } = ev { raa[slot] = true; if first_secret.get().is_none() { first_secret.set(Some(msg.per_commitment_secret)); } } }
 	};
 	drain(0, &mut raa);
 	chanmon_cfgs[0].persister.set_update_ret(ChannelMonitorUpdateStatus::Completed);
@@ -146,10 +155,144 @@ fn probe(p: P, stage: &Cell<u8>) -> Option<Out> {
 	out.cases.push((format!("hg {} {} {} {} {} {} {}", b(f1[0]), b(f1[1]), b(f1[2]), b(f1[3]), b(f1[4]), b(p.persist_completed), holder_before),
 		format!("nfua={} mon={} released={} held={}", b(f1[5]), mon_holder, b(raa[0]), held),
 		format!("hg:closed-flag={}:manual={}:seen={}:persist={}:anchors={}", closed_flags, f1[3], f1[4], p.persist_completed, p.anchors)));
+	if !closed_flags && raa_ever && !closed_by_monitor {
+		// which secret was released: GENERATED releaseIdx on the channel's next_transaction_number (= current - 1)
+		if let Some(nums) = vh::channel_restart_numbers(nodes[0].node, &b_id, &cid) {
+			let next = nums[2] - 1;
+			out.cases.push((format!("rel {}", next), format!("idx={}", revoked_after), "rel:after-commitment_signed".into()));
+			// the peer never got that revoke_and_ack: reconnect, its channel_reestablish must make us retransmit THE SAME secret
+			nodes[0].node.peer_disconnected(b_id); nodes[1].node.peer_disconnected(a_id);
+			let init_b = lightning::ln::msgs::Init { features: nodes[1].node.init_features(), networks: None, remote_network_address: None };
+			let init_a = lightning::ln::msgs::Init { features: nodes[0].node.init_features(), networks: None, remote_network_address: None };
+			nodes[0].node.peer_connected(b_id, &init_b, true).ok()?; nodes[1].node.peer_connected(a_id, &init_a, false).ok()?;
+			nodes[0].node.get_and_clear_pending_msg_events();
+			let mut reest = None;
+			for ev in nodes[1].node.get_and_clear_pending_msg_events() { if let MessageSendEvent::SendChannelReestablish { msg, .. } = ev { reest = Some(msg); } }
+			if let Some(reest) = reest {
+				nodes[0].node.handle_channel_reestablish(b_id, &reest);
+				let mut again = None;
+				for ev in nodes[0].node.get_and_clear_pending_msg_events() { if let MessageSendEvent::SendRevokeAndACK { msg, .. } = ev { again = Some(msg.per_commitment_secret); } }
+				let revoked_now = revoked_of();
+				let ans = match again {
+					Some(sec) => {
+						if Some(sec) != first_secret.get() { out.viol.push(format!("the revoke_and_ack retransmitted after channel_reestablish (next_remote_commitment_number {}) carries a DIFFERENT secret than the original one (signer's last revoked holder commitment {} -> {}). Scenario: {}", reest.next_remote_commitment_number, revoked_after, revoked_now, describe(&p))); }
+						format!("retransmit idx={}", if Some(sec) == first_secret.get() { revoked_after } else { revoked_now })
+					},
+					None => "none".to_string(),
+				};
+				if revoked_now != revoked_after { out.viol.push(format!("a channel_reestablish moved the signer's last revoked holder commitment {} -> {}. Scenario: {}", revoked_after, revoked_now, describe(&p))); }
+				out.cases.push((format!("reest {} {}", next, reest.next_remote_commitment_number), ans, "reest:peer-lacks-last-raa".into()));
+			}
+		}
+	}
 	stage.set(4);
 	for n in nodes.iter() { n.tx_broadcaster.clear(); }
 	std::mem::forget(nodes);
 	Some(out)
+}
+
+/// C05 "restart from any legally persisted state": the ChannelMonitor signs + broadcasts its holder commitment (HTLC timeout seen by the
+/// ChainMonitor) and the node crashes BEFORE that monitor state reaches the disk: it restarts from the manager + monitor persisted just
+/// before (the monitor has forgotten that it signed). After reconnecting, the peer's next commitment_signed arrives before the chain
+/// re-sync reaches the timeout height. Oracle: no revoke_and_ack for a commitment whose signed transaction was handed to the
+/// broadcaster by ANY incarnation of the monitor. Returns (class, Some(world text) if the real code revoked it).
+fn probe_reload(funding: u8, fail: bool, stage: &Cell<u8>) -> Option<(String, Option<String>)> {
+	use lightning::util::ser::Writeable;
+	use lightning::util::test_utils;
+	let chanmon_cfgs = leak(create_chanmon_cfgs(2));
+	let node_cfgs = leak(create_node_cfgs(2, chanmon_cfgs));
+	let cfg = test_legacy_channel_config();
+	let chanmgrs = leak(create_node_chanmgrs(2, node_cfgs, &[Some(cfg.clone()), Some(cfg)]));
+	let mut nodes = create_network(2, node_cfgs, chanmgrs);
+	let (a_id, b_id) = (nodes[0].node.get_our_node_id(), nodes[1].node.get_our_node_id());
+	let cid = match funding {
+		0 => create_announced_chan_between_nodes_with_value(&nodes, 0, 1, 100_000, 10_000_000).2,
+		_ => {
+			let (cid, funding_tx, _) = create_channel_manual_funding(&nodes, 0, 1, 100_000, 10_000_000, true);
+			mine_transaction(&nodes[0], &funding_tx); mine_transaction(&nodes[1], &funding_tx);
+			connect_blocks(&nodes[0], 6); connect_blocks(&nodes[1], 6);
+			cid
+		},
+	};
+	for n in nodes.iter() { n.node.get_and_clear_pending_msg_events(); n.node.get_and_clear_pending_events(); n.chain_monitor.added_monitors.lock().unwrap().clear(); }
+	let (preimage, hash, ..) = route_payment(&nodes[0], &[&nodes[1]], 1_000_000);
+	nodes[0].tx_broadcaster.txn_broadcast();
+	fn flags_of(n: &ldk_verif_harness::sim::N, cid: lightning::ln::types::ChannelId) -> [bool; 6] { let m = n.chain_monitor.chain_monitor.get_monitor(cid).unwrap(); vh::monitor_close_flags(&*m) }
+	fn revoked_of(n: &ldk_verif_harness::sim::N, cid: lightning::ln::types::ChannelId) -> u64 { let m = n.chain_monitor.chain_monitor.get_monitor(cid).unwrap(); let mut r = 0; m.do_mut_signer_call(|s| { r = s.get_enforcement_state().last_holder_revoked_commitment; }); r }
+	// ---- what is on disk: manager + monitor as of now
+	let mgr_bytes = nodes[0].node.encode();
+	let mon_bytes = nodes[0].chain_monitor.chain_monitor.get_monitor(cid).ok()?.encode();
+	let holder_n = { let m = nodes[0].chain_monitor.chain_monitor.get_monitor(cid).ok()?; vh::monitor_restart_numbers(&*m)[0] };
+	let revoked_before = revoked_of(&nodes[0], cid);
+	let height_on_disk = nodes[0].best_block_info().1;
+	stage.set(1);
+	// ---- incarnation 1 of the monitor goes on chain (not persisted)
+	let mut blocks_connected = 0;
+	for _ in 0..250 {
+		let (block_hash, height) = nodes[0].best_block_info();
+		let block = create_dummy_block(block_hash, height + 1, Vec::new());
+		nodes[0].chain_monitor.chain_monitor.best_block_updated(&block.header, height + 1);
+		nodes[0].blocks.lock().unwrap().push((block, height + 1));
+		blocks_connected += 1;
+		if flags_of(&nodes[0], cid)[2] { break; }
+	}
+	let bcast = nodes[0].tx_broadcaster.txn_broadcast();
+	if !flags_of(&nodes[0], cid)[2] || bcast.is_empty() { return Some(("reload:not-triggered".into(), None)); }
+	let bcast_txids: Vec<String> = bcast.iter().map(|t| t.compute_txid().to_string()).collect();
+	stage.set(2);
+	// ---- crash; restart from what is on disk
+	nodes[1].node.peer_disconnected(a_id);
+	let config = nodes[0].node.get_current_config();
+	let persister: &'static test_utils::TestPersister = leak(test_utils::TestPersister::new());
+	{
+		let node = &mut nodes[0];
+		let new_chain_monitor: &'static test_utils::TestChainMonitor<'static> = leak(test_utils::TestChainMonitor::new(
+			Some(node.chain_source), node.tx_broadcaster, node.logger, node.fee_estimator, persister, node.keys_manager));
+		node.chain_monitor = new_chain_monitor;
+		let new_mgr = _reload_node(node, config, &mgr_bytes, &[&mon_bytes[..]], None);
+		let new_mgr: &'static TestChannelManager<'static, 'static> = leak(new_mgr);
+		node.node = new_mgr;
+		node.onion_messenger.set_offers_handler(new_mgr);
+		node.onion_messenger.set_async_payments_handler(new_mgr);
+		node.chain_monitor.added_monitors.lock().unwrap().clear();
+	}
+	let f2 = flags_of(&nodes[0], cid);
+	stage.set(3);
+	// ---- reconnect (channel_reestablish both ways), no block is connected to the new incarnation yet
+	let init_b = lightning::ln::msgs::Init { features: nodes[1].node.init_features(), networks: None, remote_network_address: None };
+	let init_a = lightning::ln::msgs::Init { features: nodes[0].node.init_features(), networks: None, remote_network_address: None };
+	nodes[0].node.peer_connected(b_id, &init_b, true).ok()?; nodes[1].node.peer_connected(a_id, &init_a, false).ok()?;
+	let (mut ra, mut rb) = (None, None);
+	for ev in nodes[0].node.get_and_clear_pending_msg_events() { if let MessageSendEvent::SendChannelReestablish { msg, .. } = ev { ra = Some(msg); } }
+	for ev in nodes[1].node.get_and_clear_pending_msg_events() { if let MessageSendEvent::SendChannelReestablish { msg, .. } = ev { rb = Some(msg); } }
+	nodes[1].node.handle_channel_reestablish(a_id, &ra?);
+	nodes[0].node.handle_channel_reestablish(b_id, &rb?);
+	nodes[0].node.get_and_clear_pending_msg_events(); nodes[1].node.get_and_clear_pending_msg_events();
+	let live = nodes[0].node.list_channels().iter().any(|d| d.channel_id == cid && d.is_usable);
+	if !live { return Some(("reload:channel-not-live-after-restart".into(), None)); }
+	// ---- the peer's next commitment_signed
+	if fail { nodes[1].node.fail_htlc_backwards(&hash); nodes[1].node.process_pending_htlc_forwards(); } else { nodes[1].node.claim_funds(preimage); }
+	nodes[1].node.get_and_clear_pending_events();
+	let mut upd = None;
+	for ev in nodes[1].node.get_and_clear_pending_msg_events() { if let MessageSendEvent::UpdateHTLCs { node_id, updates, .. } = ev { if node_id == a_id { upd = Some(updates); } } }
+	let mut upd = upd?;
+	stage.set(4);
+	if fail { nodes[0].node.handle_update_fail_htlc(b_id, &upd.update_fail_htlcs.remove(0)); } else { nodes[0].node.handle_update_fulfill_htlc(b_id, upd.update_fulfill_htlcs.remove(0)); }
+	nodes[0].node.handle_commitment_signed_batch_test(b_id, &upd.commitment_signed);
+	let mut raa = false;
+	for _ in 0..2 {
+		for ev in nodes[0].node.get_and_clear_pending_msg_events() { if let MessageSendEvent::SendRevokeAndACK { .. } = ev { raa = true; } }
+		nodes[0].node.get_and_clear_pending_events();
+	}
+	let revoked_after = revoked_of(&nodes[0], cid);
+	let world = if raa || revoked_after != revoked_before {
+		Some(format!("node A ({} funding, legacy channel, one outbound HTLC of 1_000_000 msat to B pending): manager + monitor persisted at height {} (monitor flags all clear, holder commitment number {}); then {} blocks reach A's ChainMonitor only, the monitor sees the HTLC time out, sets holder_tx_signed and hands {} transaction(s) to the broadcaster (txids {}) signing holder commitment {}; A crashes before this monitor state is persisted and restarts from the persisted manager + monitor (flags after reload: funding_spend_seen={} lockdown_from_offchain={} holder_tx_signed={}); A and B reconnect (channel_reestablish both ways), no block has been replayed to the new incarnation yet; B sends update_{}_htlc + commitment_signed; A answers revoke_and_ack: {} (signer's last revoked holder commitment {} -> {}), i.e. A revoked commitment {} whose signed transaction its previous incarnation had already broadcast",
+			if funding == 0 { "ordinary" } else { "manual-broadcast (0-conf, funding confirmed)" }, height_on_disk, holder_n, blocks_connected, bcast.len(), bcast_txids.join(","), holder_n, f2[0], f2[1], f2[2], if fail { "fail" } else { "fulfill" }, raa, revoked_before, revoked_after, holder_n))
+	} else { None };
+	let class = format!("reload:funding={}:{}", funding, if world.is_some() { "REVOKED-A-BROADCAST-COMMITMENT" } else { "no-revoke_and_ack" });
+	for n in nodes.iter() { n.tx_broadcaster.clear(); }
+	std::mem::forget(nodes);
+	Some((class, world))
 }
 
 fn main() {
@@ -158,7 +301,7 @@ fn main() {
 	let mut rec = Rec::new(&args.out, "c05h");
 	let mut rng = Rng::new(args.seed);
 	let mut plan: Vec<P> = vec![];
-	for funding in 0..3u8 { for trigger in 0..3u8 { for anchors in [false, true] {
+	for funding in 0..3u8 { for trigger in 0..4u8 { for anchors in [false, true] {
 		// every (funding, trigger, anchors) once; the remaining parameters from the seed (all combinations in the thorough tier)
 		if args.thorough {
 			for pc in [true, false] { for prior in 0..3usize { for fail in [false, true] { plan.push(P { funding, anchors, trigger, persist_completed: pc, prior, fail }); } } }
@@ -185,6 +328,22 @@ fn main() {
 			},
 		}
 	}
+	// restart from a monitor persisted BEFORE its own broadcast (crash between broadcast and persist): a candidate finding is
+	// recorded as a class + note; it fails the check only with VERIF_C05_RELOAD_ORACLE=1 (integrator's decision pending)
+	for funding in 0..2u8 { for fail in [false, true] {
+		let stage = Cell::new(0u8);
+		match guarded(std::panic::AssertUnwindSafe(|| probe_reload(funding, fail, &stage))) {
+			Ok(Some((class, world))) => {
+				*rec.classes.entry(class).or_insert(0) += 1;
+				if let Some(w) = world {
+					if std::env::var("VERIF_C05_RELOAD_ORACLE").is_ok() { rec.oracle_fail(format!("revoke_and_ack for a commitment already broadcast by an earlier incarnation of the monitor: {}", w)); }
+					rec.notes.insert(format!("candidate_finding_reload_{}_{}", funding, fail), w);
+				}
+			},
+			Ok(None) => { *rec.classes.entry(format!("reload:setup-failed:stage={}", stage.get())).or_insert(0) += 1; },
+			Err(e) => { *rec.classes.entry(format!("reload:panicked:stage={}", stage.get())).or_insert(0) += 1; rec.notes.insert(format!("reload_panic_{}_{}", funding, fail), e.chars().take(200).collect()); },
+		}
+	} }
 	rec.notes.insert("not_triggered".into(), not_triggered.to_string());
 	rec.notes.insert("setup_failed".into(), setup_failed.to_string());
 	rec.notes.insert("rule".into(), "once a close flag of the ChannelMonitor is set (holder_tx_signed by its own HTLC-timeout / broadcast_latest_holder_commitment_txn), a commitment_signed handled before the manager sees the HolderForceClosed event never releases a revoke_and_ack; every channel kind".into());
